@@ -67,6 +67,7 @@ def attempts(tier):
     out.append(('loginmech-cancel', b'testuser'))
     out.append(('unknownmech',))
     out.append(('plain-initial', b64(b'\x00testuser\x00testpass')))
+    out.append(('starttls-pipelined',))
     return out
 
 
@@ -120,6 +121,13 @@ async def do_attempt(c, att):
         r = await c.cmd(b'AUTHENTICATE X-FOO')
     elif k == 'plain-initial':
         r = await c.cmd(b'AUTHENTICATE PLAIN ' + att[1])
+    elif k == 'starttls-pipelined':
+        # one plain-text segment: STARTTLS and, behind it, a LOGIN -- presented in plain text while LOGINDISABLED is advertised
+        c.writer.fake_tls_ok = True          # the handshake that follows succeeds
+        await c.send_raw(b's1 STARTTLS\r\ns2 LOGIN testuser testpass\r\n')
+        resps, steps, ok = await c.wait_for(lambda resps, rest: any(x.startswith(b's2 ') for x in resps), 1500)
+        tagged = [x for x in resps if x.startswith(b's2 ')]
+        r = dict(tagged=tagged[0] if tagged else None, untagged=resps, closed=c.task.done(), all=resps)
     else:
         raise ValueError(k)
     if r['tagged'] is None:
@@ -292,7 +300,7 @@ def bounded_auth(label):
         import random
         rnd = random.Random(seed)
         res = BoundedResult()
-        atts = attempts(tier)
+        atts = [a for a in attempts(tier) if a[0] != 'starttls-pipelined']      # used alone, in the tls-remote configuration
         good = [a for a in atts if expected(a)[0]]
         bad = [a for a in atts if not expected(a)[0]]
         items = []
@@ -301,6 +309,7 @@ def bounded_auth(label):
         for a in atts[::3]:
             items.append(('imap', 'tls-remote', (a,)))
             items.append(('imap', 'tls-local', (a,)))
+        items.append(('imap', 'tls-remote', (('starttls-pipelined',),)))
         # orders of failed and successful attempts
         for a in bad[::2]:
             for b in good[::2]:
